@@ -62,6 +62,8 @@ def run(ctx):
                       "named in the variant's doc comment")
     ctx.rule("R20.3", "DirList::has_file tests FileType::is_file, has_dir tests is_dir; if_has_* return Some(project) "
                       "exactly on the true edge of the matching has_*")
+    ctx.rule("R20.5", "consumers: a listing is read with tokio's read_dir of exactly the path that is then stripped from the entries; the CLI asks for the "
+                      "types of the project origin (not of another directory) and keeps exactly the VCS ones")
     ctx.rule("R20.4", "every path inserted into the result of origins() is the argument or Path::parent of such a path, "
                       "inserted only on the true edge of check_list for that same directory; the ancestor loop ends only "
                       "when parent() is None")
@@ -197,6 +199,33 @@ def run(ctx):
             ls = [_px4.desc(st["i"]) for st in thir.walk(thir.root(hf)) if isinstance(st, dict) and st.get("k") == "let" and isinstance(st.get("i"), dict)]
             ctx.require(ls in ([], ["AsRef::as_ref(name)"]), "R20.3", "lookup-as-written:has_" + kind, "has_%s looks the marker name up as written" % kind, hf.loc(hf.line), detail=str(ls),
                         fail="has_%s transforms the marker name before the lookup (%s)" % (kind, ls))
+    except Skip:
+        pass
+
+    # ---- R20.5 consumers
+    try:
+        from .. import pathx as _px5
+        from ..facts import strip_generics as _sg5
+        ob5 = ctx.anchor_fn("R20.5", "project_origins::DirList::obtain")
+        rd = []
+        for g in [ob5] + facts.descendants(ob5):
+            for c, nd in thir.calls_in(thir.root(g)):
+                if c.split("::")[-1] == "read_dir":
+                    rd.append((c, [_px5.desc(a).lstrip("^") for a in nd["a"]]))
+        ctx.require(rd == [("tokio::fs::read_dir::read_dir", ["path"])], "R20.5", "listing-of-given-path", "DirList::obtain lists the directory it was given (tokio::fs::read_dir(path))",
+                    ob5.loc(ob5.line), detail=str(rd), fail="DirList::obtain no longer lists exactly the given path with tokio's read_dir (%s): the entries are stripped of a different "
+                    "prefix than the one that was opened, so a non-canonical directory lists as empty" % rd)
+        wn5 = [f for f in facts.fns_matching(r"^watchexec_cli::filterer::WatchexecFilterer::new") if f.kind == "coroutine"]
+        vt_args = [[_px5.desc(a).lstrip("^") for a in nd["a"]] for g in wn5 for c, nd in thir.calls_in(thir.root(g)) if _sg5(c).endswith("dirs::vcs_types")]
+        ctx.require(vt_args == [["project_origin"]], "R20.5", "cli-types-of-origin", "the CLI asks for the VCS types of the project origin", detail=str(vt_args),
+                    fail="the CLI asks for the project types of %s instead of the project origin: the wrong VCS's ignore files are honoured or dropped" % vt_args)
+        vt = [f for f in facts.fns_matching(r"^watchexec_cli::dirs::vcs_types") if f.kind == "coroutine"]
+        okv = False
+        if vt:
+            tcalls = [[_px5.desc(a).lstrip("^") for a in nd["a"]] for c, nd in thir.calls_in(thir.root(vt[0])) if _sg5(c).endswith("project_origins::types")]
+            cl5 = [_px5.desc(thir.peel(thir.root(c))) for c in facts.children(vt[0]) if c.kind == "closure"]
+            okv = tcalls == [["origin"]] and "ProjectType::is_vcs(pt)" in cl5
+        ctx.require(okv, "R20.5", "cli-vcs-types", "dirs::vcs_types(origin) = the types of `origin` that are version control", detail=str(vt and (tcalls, cl5))[:200])
     except Skip:
         pass
 
